@@ -340,6 +340,7 @@ package kvql
 //@ define gapLo(idx []int, j Int) Int = ite(j == 0, 0, idx[j - 1] + 1)
 //@ func (p *FullScanPlan) Batch(ctx *ExecuteCtx) (ret []KVPair, err error)
 //@   props C01 C03 C13 C05
+//@   splitlatch
 //@   ghost j Int
 //@   ghost m Int
 //@   requires p != nil && wfFilter(p.Filter) && wfCur(p.iter) && !failed && ctx != nil && PlanBatchSize > 0 && (ctx.EnableCache ==> ctx.FieldChunkCaches != nil)
@@ -381,6 +382,7 @@ package kvql
 // consume one pair beyond the region (the first key without the prefix): s = 1 in the invariants.
 //@ func (p *PrefixScanPlan) Batch(ctx *ExecuteCtx) (ret []KVPair, err error)
 //@   props C01 C03 C13 C18 C05
+//@   splitlatch
 //@   ghost j Int
 //@   ghost m Int
 //@   requires p != nil && wfFilter(p.Filter) && wfCur(p.iter) && !failed && ctx != nil && PlanBatchSize > 0 && (ctx.EnableCache ==> ctx.FieldChunkCaches != nil)
@@ -439,6 +441,7 @@ package kvql
 // region (the first key above End).
 //@ func (p *RangeScanPlan) Batch(ctx *ExecuteCtx) (ret []KVPair, err error)
 //@   props C01 C03 C13 C18 C05
+//@   splitlatch
 //@   ghost j Int
 //@   ghost m Int
 //@   requires p != nil && wfFilter(p.Filter) && wfCur(p.iter) && !failed && ctx != nil && PlanBatchSize > 0 && (ctx.EnableCache ==> ctx.FieldChunkCaches != nil)
@@ -498,6 +501,7 @@ package kvql
 // existential over the result, which the solvers do not carry through the three loops.)
 //@ func (p *MultiGetPlan) Batch(ctx *ExecuteCtx) (ret []KVPair, err error)
 //@   props C01 C03 C13 C18 C05
+//@   splitlatch
 //@   ghost j Int
 //@   ghost m Int
 //@   requires wfMGet(p) && !failed && ctx != nil && PlanBatchSize > 0 && (ctx.EnableCache ==> ctx.FieldChunkCaches != nil)
